@@ -9,8 +9,8 @@ from checks import ctxcommon
 from framework import Case
 
 PROP = "C03"
-GENERATED = ['DtypeTables', 'Core', 'SrcShape']  # generated files this check's tie depends on
-LEAN_MODULES = ["Properties.C03", "Properties.C03p", "Properties.Core", "Properties.Prov.Shape"]
+GENERATED = ['DtypeTables', 'Core', 'SrcShape', 'ShapeLoop']  # generated files this check's tie depends on
+LEAN_MODULES = ["Properties.C03", "Properties.C03p", "Properties.Core", "Properties.Prov.Shape", "Properties.CoreShape"]
 RULE = (
     "exhaustive: every shape string of <=4 dimensions over {0,2,3,a,c=2} with the marker (none / ... / *g) in every position x every array "
     "shape of rank 0..5 (quick) / 0..6 (thorough) over sizes {0,2,3} (sampled where the product is large) x accepted / rejected dtype; plus the "
